@@ -10,6 +10,7 @@ ASSUMPTIONS = [
 
 # API codes: 0 Match, 1 FindIndex, 2 FindSubmatchIndex, 3 FindAllIndex, 4 Count, 5 ReplaceAll
 P06 = [
+    (r"\b\w+\b", "a -"), (r"\b\d+", "1a "),   # UseNFA without prefilter: small bounded backtracker on the FindIndicesAt paths
     (r"a|ab", "ab-"), (r"[a-z]+[0-9]+", "a1-"), (r"\w+@\w+", "a@-"), (r".*\.tx", ".tx"), (r"(a|b)+", "ab-"), (r"\bx", "x -"), (r"foo|bar", "fob"),
     (r"ab$", "ab\n"), (r"^a.*c$", "ac\n"), (r"[a-z]+", "a1-"), (r"(\d+)-(\d+)", "1-a"), (r".*co.*", "co\n"), (r"^.*$", "ab-"), (r"a\d+", "a1-"), (r"(.+)-(\d+)", "a1-"), (r"[^a-z]+", "a1-"),
     (r"a.*?b", "ab-"), (r"(?m)^/.*\.js", "/.j"), (r".*\.(tx|lo)", ".tl"), (r"^(ab|cd)", "abc"),
@@ -20,7 +21,7 @@ PAIRS_T = [(a, b) for a in range(6) for b in range(a, 6)]
 
 def items(tier):
     out = []
-    pats = P06 if tier != "quick" else P06[:14]
+    pats = P06 if tier != "quick" else P06[:16]
     for p, alpha in pats:
         for (a, b) in (PAIRS_Q if tier == "quick" else PAIRS_T):
             L = 1 if tier == "quick" else 2
@@ -30,4 +31,4 @@ def items(tier):
 
 
 def evidence_extra(tier):
-    return {"bounds": {"patterns": [p for p, _ in (P06 if tier != "quick" else P06[:14])], "api_pairs": PAIRS_Q if tier == "quick" else PAIRS_T, "max_preemptions": 1 if tier == "quick" else 2, "haystack_len": 1 if tier == "quick" else 2}}
+    return {"bounds": {"patterns": [p for p, _ in (P06 if tier != "quick" else P06[:16])], "api_pairs": PAIRS_Q if tier == "quick" else PAIRS_T, "max_preemptions": 1 if tier == "quick" else 2, "haystack_len": 1 if tier == "quick" else 2}}
